@@ -78,6 +78,10 @@ CHECKS = {
    technique="runtime monitor: exhaustive ordered-pair isolation probes by bit-indexed write/read rounds with unique values over an adversarial address alphabet on four backends, each hit confirmed by an isolated two-address probe and attributed to a mechanism computed from the two addresses",
    text="All ordered pairs of different (type, session, key) addresses from an adversarial alphabet (3456 addresses quick, ~22000 thorough) are covered on mem, fs, fs-binary and the Postgres fake with 2*log2(n) rounds per backend: a written address must return its own value, an unwritten one nothing, an fs listing only its own session's records. A confusion through any mechanism other than the recorded ones (separator ambiguity of sid.key; legacy file-name fallback for resource types) is a new violation.",
    note="Addresses whose Put fails count as not accepted by the backend. Mechanism attribution is computed by the harness from the two addresses only."),
+ "C12": dict(engine="crash", category="fault_enumeration", design="§3 C12",
+   technique="runtime fault injection: real process death (strace inject SIGKILL on syscall entry) before every recorded file-system syscall of a real engine request on the fs store, plus torn writes synthesised from the recorded payloads; recovery oracle on every crash directory",
+   text="For old/new snapshot pairs along generated histories (small and > 4 KiB records, first-ever save) a child process performs one real request; its file-system syscalls are recorded, then the child is killed before each of them in turn and every write is additionally torn at several byte counts. Each crash directory must load to the complete old or complete new snapshot, continue the session accordingly, and leave other sessions' records unchanged.",
+   note="Process death, not power loss. Needs working ptrace (otherwise inconclusive). Kill runs whose trace does not show the recorded prefix are counted as inconclusive points."),
 }
 NOT_YET = {}
 ALL = ["C%02d" % i for i in range(1, 21)]
